@@ -44,6 +44,20 @@ func verifH_C05_deepobject_compositions() {
 	if withB {
 		q["p[b]"] = []string{"true"}
 	}
+	if comp == 5 && verifChoose("onlyB", 2) == 1 {
+		// only the member of the *second* branch is sent: the first branch decodes to nothing
+		got, found, err := decodeStyledParameter(&openapi3.Parameter{Name: "p", In: "query", Style: "deepObject", Explode: func() *bool { t := true; return &t }(), Schema: schema},
+			&RequestValidationInput{QueryParams: url.Values{"p[b]": []string{"true"}}, Request: &http.Request{Header: http.Header{}, URL: &url.URL{}}})
+		m, isObj := got.(map[string]any)
+		verifAssert(err == nil && found && isObj && len(m) == 1 && m["b"] == true, "C05 deepObject compositions: a member of a later allOf branch alone decodes to the object that has it")
+		// the same as an exploded form object (every query key is a candidate member)
+		got, found, err = decodeStyledParameter(&openapi3.Parameter{Name: "p", In: "query", Style: "form", Explode: func() *bool { t := true; return &t }(), Required: true, Schema: schema},
+			&RequestValidationInput{QueryParams: url.Values{"b": []string{"true"}, "other": []string{"1"}}, Request: &http.Request{Header: http.Header{}, URL: &url.URL{}}})
+		m, isObj = got.(map[string]any)
+		verifAssert(err == nil && found && isObj && len(m) == 1 && m["b"] == true, "C05 deepObject compositions: the same for an exploded form object")
+		verifReach("end")
+		return
+	}
 	var want any
 	ok := false
 	for _, t := range types {
